@@ -879,6 +879,27 @@ func (x *Exec) evalCall(env *CEnv, n *CCall) (*CV, error) {
 			t = sBase(t)
 		}
 		return &CV{T: Select(env.st.alloc, t), Ty: types.Typ[types.Bool]}, nil
+	case "hp": // raw heap cell of the element type of a slice expression: hp(s, addr, absIndex)
+		v, err := x.eval(env, n.Args[0])
+		if err != nil {
+			return nil, err
+		}
+		sl, ok := v.Ty.Underlying().(*types.Slice)
+		if !ok {
+			return nil, fmt.Errorf("hp: first argument must be a slice")
+		}
+		a, err := x.eval(env, n.Args[1])
+		if err != nil {
+			return nil, err
+		}
+		i, err := x.eval(env, n.Args[2])
+		if err != nil {
+			return nil, err
+		}
+		if env.specHeaps != nil {
+			env.specHeaps[x.heapName(sl.Elem())] = true
+		}
+		return &CV{T: x.heapRead(env.st, sl.Elem(), x.cvTerm(a, &CV{T: Term{"", SInt}}), x.cvTerm(i, &CV{T: bv64(0)})), Ty: sl.Elem()}, nil
 	case "base":
 		v, err := x.eval(env, n.Args[0])
 		if err != nil {
@@ -1177,7 +1198,11 @@ func (x *Exec) compileSpec(env *CEnv, sp *SpecFunc) (*compiledSpec, error) {
 			cs.name, strings.Join(sorts, " "), cs.retS, strings.Join(all, " "), app, bs, app))
 		return cs, nil
 	}
-	x.sc.Decl("spec:"+key, fmt.Sprintf("(define-fun-rec %s (%s) %s\n  %s)", cs.name, strings.Join(all, " "), cs.retS, bs))
+	kw := "define-fun"
+	if strings.Contains(bs, "("+cs.name+" ") {
+		kw = "define-fun-rec"
+	}
+	x.sc.Decl("spec:"+key, fmt.Sprintf("(%s %s (%s) %s\n  %s)", kw, cs.name, strings.Join(all, " "), cs.retS, bs))
 	return cs, nil
 }
 
@@ -1277,4 +1302,20 @@ func splitArgs(s string) []string {
 		i = e
 	}
 	return out
+}
+
+// conjuncts splits a contract expression at top-level && so that each part
+// becomes its own obligation (smaller queries, precise failure reports).
+func conjuncts(e CExpr) []CExpr {
+	if b, ok := e.(*CBin); ok && b.Op == "&&" {
+		return append(conjuncts(b.X), conjuncts(b.Y)...)
+	}
+	return []CExpr{e}
+}
+
+func partName(name string, i, n int) string {
+	if n == 1 {
+		return name
+	}
+	return fmt.Sprintf("%s.%c", name, 'a'+i)
 }
